@@ -15,5 +15,7 @@ rc=$?
 if [ $rc -ne 0 ]; then git checkout -- .; exit 2; fi
 /venv/bin/python -m pytest -q -p no:cacheprovider --continue-on-collection-errors 2>&1 | tail -1
 cd /verif
-for i in $id; do ./check $i --tier quick 2>&1 | grep -E "^VIOLATION|HARNESS|seed=" | head -5; done
+OUT=$(mktemp -d /tmp/hxv_mut.XXXXXX)
+for i in $id; do HXV_OUT_DIR="$OUT" ./check $i --tier quick 2>&1 | grep -E "^VIOLATION|HARNESS|seed=" | head -5; done
 git -C /repo checkout -- .
+rm -rf "$OUT"
